@@ -130,7 +130,7 @@ def dba_loop(s, c=None, max_it=10, thr=0.001, mask=None,
         logger.debug('DBA Iteration {}'.format(it))
         if use_c:
             assert(c is not None)
-            c_copy = np.array(c, dtype=np.double)  # A copy, the C code reuses this array
+            c_copy = np.array(c, dtype=np.double, order='C')  # A C-ordered copy, the C code reuses this array
             # c_copy = c.flatten()
             if ndim == 1:
                 dtw_cc.dba(s, c_copy, mask=mask_copy, nb_prob_samples=nb_prob_samples, **kwargs)
